@@ -160,6 +160,9 @@ def _ref_dir_concrete(name, level):
     return level == 4 or all(ch in LEG for ch in name)
 
 
+from vf.props.C13_dup import DUP_RECIPES  # noqa: E402  (CrossHair harness lives in a module without z3 imports: replays run under /venv)
+
+
 META = {
     'explanation': 'C13.a: the acceptance predicates _check_iso9660_filename / _check_iso9660_directory executed (real source, re-read each run) on '
                    'symbolic byte strings over a 24-class quotient of the 256 byte values (each digit, "_", ".", ";", "/", A-Z, whitespace, sign, other): '
@@ -192,4 +195,17 @@ def obligations(tier):
                     'params': {'level': level, 'N': 10 if quick else 12, 'fn': '_check_iso9660_directory'}, 'cond_timeout': 3000,
                     'bounds': 'ALL byte strings of 0..%d bytes; level %d' % (10 if quick else 12, level),
                     'functions': ['_check_iso9660_directory', '_check_d1_characters']})
+    from vf import skel
+    from vf.props import C14
+    cfgs = [skel.cfg_of(3, 3, '1.09', True, False)] if quick else [skel.cfg_of(3, 3, '1.09', True, False), skel.cfg_of(1, 1, None, True, True), skel.cfg_of(4, 3, '1.12', True, False)]
+    for c in cfgs:
+        for name in DUP_RECIPES:
+            if not C14.recipes(c)[name][1]:
+                continue
+            obs.append({'name': 'C13.c/%s/%s' % (name, skel.cfg_name(c)), 'engine': 'chx', 'module': 'vf.props.C13_dup', 'func': 'dup_refused',
+                        'params': {'cfg': c, 'recipe': name}, 'cond_timeout': 600, 'path_timeout': 100,
+                        'bounds': 'duplicate-name recipe %s on a 3-entry image; config %s; two lengths symbolic' % (name, skel.cfg_name(c)),
+                        'functions': ['DirectoryRecord._add_child', 'PyCdlib._add_child_to_dr', 'UDFFileEntry.add_file_ident_desc', 'PyCdlib._add_fp',
+                                      'PyCdlib.add_directory', 'PyCdlib.add_hard_link', 'PyCdlib.add_symlink', 'PyCdlib.add_eltorito'],
+                        'samples': [(1, 2049)]})
     return obs
